@@ -145,6 +145,13 @@ func (n *Tree[V]) addNode(path string, wildcardKeys []string, inStaticToken bool
 			}
 
 			wildcardKeys = append(wildcardKeys, thisToken)
+
+			// As for every other leaf: the wildcard keys must be the same as the old ones. Otherwise, the
+			// values registered before would be matched using the names of the new expression.
+			if len(n.catchAllChild.wildcardKeys) != 0 && !slices.Equal(n.catchAllChild.wildcardKeys, wildcardKeys) {
+				return nil, fmt.Errorf("%w: %s is ambigous - wildcard keys differ", ErrInvalidPath, path)
+			}
+
 			n.catchAllChild.wildcardKeys = wildcardKeys
 
 			return n.catchAllChild, nil
